@@ -47,10 +47,14 @@ static bool parseInts(std::vector<std::string> const& t, std::size_t from, std::
 // get every coordinate divided by den (exact in binary floating point), the oracles work on the integer numerators, and
 // volumes are reported multiplied by den^m (exact) - by homogeneity the same line as without the token
 static double g_den = 1;
+// translation classes: a line may start with the token t<k> / t-<k>: the real algorithms get every coordinate (points AND
+// reference) shifted by +2^k / -2^k (k <= 45: exact integers below 2^53; all algorithms work on differences ref - p, so every
+// result must be IDENTICAL to the unshifted line: rankSpec_shift, hvSpec_scale_shift) - a RELATIVE tolerance shows here
+static double g_off = 0;
 static double scaleOf(std::size_t m){ double s = 1; for(std::size_t i = 0; i != m; ++i) s *= g_den; return s; }
 static RealVector vec(std::vector<long long> const& a, std::size_t from, std::size_t m){
 	RealVector v(m);
-	for(std::size_t i = 0; i != m; ++i) v(i) = (double)a[from+i] / g_den;
+	for(std::size_t i = 0; i != m; ++i) v(i) = (double)a[from+i] / g_den + g_off;
 	return v;
 }
 static Points pts(std::vector<long long> const& a, std::size_t from, std::size_t m, std::size_t n){
@@ -91,9 +95,9 @@ static long long cellHv(Points const& P, RealVector const& ref){
 	if(P.empty()) return 0;
 	std::vector<long long> lo(m), z(m);
 	for(std::size_t d = 0; d != m; ++d){
-		lo[d] = (long long)(ref(d) * g_den);
-		for(auto const& p: P) lo[d] = std::min(lo[d], (long long)(p(d) * g_den));
-		if(lo[d] >= (long long)(ref(d) * g_den)) return 0;
+		lo[d] = (long long)((ref(d) - g_off) * g_den);
+		for(auto const& p: P) lo[d] = std::min(lo[d], (long long)((p(d) - g_off) * g_den));
+		if(lo[d] >= (long long)((ref(d) - g_off) * g_den)) return 0;
 	}
 	z = lo;
 	long long count = 0;
@@ -101,12 +105,12 @@ static long long cellHv(Points const& P, RealVector const& ref){
 		bool cov = false;
 		for(auto const& p: P){
 			bool le = true;
-			for(std::size_t d = 0; d != m && le; ++d) if(p(d) * g_den > (double)z[d]) le = false;
+			for(std::size_t d = 0; d != m && le; ++d) if((p(d) - g_off) * g_den > (double)z[d]) le = false;
 			if(le){ cov = true; break; }
 		}
 		if(cov) ++count;
 		std::size_t d = 0;
-		while(d != m){ if(++z[d] < (long long)(ref(d) * g_den)) break; z[d] = lo[d]; ++d; }
+		while(d != m){ if(++z[d] < (long long)((ref(d) - g_off) * g_den)) break; z[d] = lo[d]; ++d; }
 		if(d == m) break;
 	}
 	return count;
@@ -126,7 +130,29 @@ int main(){
 	while(std::getline(std::cin, line)){
 		std::vector<std::string> t = vh::tokens(line);
 		if(t.empty()){ std::cout << "\n"; continue; }
-		g_den = 1;
+		g_den = 1; g_off = 0;
+		if(t[0].size() > 1 && t[0][0] == 't' && t.size() > 1 && (t[0][1] == '-' || (t[0][1] >= '0' && t[0][1] <= '9'))){
+			bool okt = true; int kt = 0;
+			std::size_t b0 = t[0][1] == '-' ? 2 : 1;
+			if(b0 == t[0].size() || t[0].size() > b0 + 2) okt = false;
+			for(std::size_t c = b0; okt && c < t[0].size(); ++c){ if(t[0][c] < '0' || t[0][c] > '9'){ okt = false; break; } kt = kt * 10 + (t[0][c] - '0'); }
+			if(!okt || kt > 45 || t[1] == "hoys" || t[1] == "dca" || t[1] == "dcb" || t[1] == "sort"){ std::cout << "bad-op\n"; continue; }
+			g_off = std::ldexp(t[0][1] == '-' ? -1.0 : 1.0, kt); t.erase(t.begin());
+		}else
+		// scale classes: a line may start with the token e<k> (k an integer, |k| <= 120): the real algorithms get every
+		// coordinate (points AND reference) multiplied by 2^k - exact in binary floating point, and every comparison, difference
+		// and product inside the algorithms stays exact (no over-/underflow: |coordinate| < 2^53, m <= 6) - the oracles work on
+		// the integers, volumes are reported divided by 2^(k*m) (exact). Order-theoretic results must be IDENTICAL to the
+		// unscaled line, volumes scale by exactly 2^(k*m) (rankSpec_scale, hvSpec_scale_shift, hvQ_scale): any absolute
+		// tolerance hidden in the code shows up at some scale
+		if(t[0].size() > 1 && t[0][0] == 'e' && t.size() > 1 && (t[0][1] == '-' || (t[0][1] >= '0' && t[0][1] <= '9'))){
+			bool oke = true; int ke = 0;
+			std::size_t b0 = t[0][1] == '-' ? 2 : 1;
+			if(b0 == t[0].size() || t[0].size() > b0 + 3) oke = false;
+			for(std::size_t c = b0; oke && c < t[0].size(); ++c){ if(t[0][c] < '0' || t[0][c] > '9'){ oke = false; break; } ke = ke * 10 + (t[0][c] - '0'); }
+			if(!oke || ke > 120 || t[1] == "hoys" || t[1] == "dca" || t[1] == "dcb"){ std::cout << "bad-op\n"; continue; }
+			g_den = std::ldexp(1.0, t[0][1] == '-' ? ke : -ke); t.erase(t.begin());
+		}else
 		if(t[0].size() > 1 && t[0][0] == 'q' && t.size() > 1){
 			long long dq = 0; bool okq = true;
 			for(std::size_t c = 1; c < t[0].size(); ++c){ if(t[0][c] < '0' || t[0][c] > '9'){ okq = false; break; } dq = dq * 10 + (t[0][c] - '0'); }
